@@ -87,7 +87,8 @@ def run(ctx):
         smooth = rng.choice([0, 1, 5, 10, 10, 20, 33, 50, 100])
         limit = 10000.0
         # the end nodes: the ends of the atmosphere (-1, the default) or pressures of their own
-        Psurf, Ptop = -1, -1
+        # (any negative number, or None, stands for "the end of the atmosphere")
+        Psurf, Ptop = rng.choice([-1, -1, -1.0, -2.0, -1e-3, None]), rng.choice([-1, -1, -1.0, -2.0, -1e-3, None])
         if rng.random() < 0.3:
             Psurf = float(P[0]) * 10 ** rng.uniform(-0.3, 0.5)
         if rng.random() < 0.3:
@@ -122,7 +123,7 @@ def run(ctx):
         except Exception as e:
             ctx.violation('npoint-raises', 'NPoint.profile raised %r (%d layers, window %r)' % (e, n, smooth), replay=prm)
             continue
-        nodesP = [P[0] if Psurf < 0 else Psurf] + Pn + [P[-1] if Ptop < 0 else Ptop]
+        nodesP = [P[0] if (Psurf is None or Psurf < 0) else Psurf] + Pn + [P[-1] if (Ptop is None or Ptop < 0) else Ptop]
         inverted = any(nodesP[j] <= nodesP[j + 1] for j in range(len(nodesP) - 1))
         if res == 'ok':
             if inverted:
